@@ -16,6 +16,7 @@ import SshAudit.Driver.Ssh1ReportOps
 import SshAudit.Driver.LookupOps
 import SshAudit.Driver.JsonDocOps
 import SshAudit.Driver.PolicyAuditOps
+import SshAudit.Driver.CompatOps
 namespace SshAudit.Driver
 
 def badOp : J := .obj [("err", .str "bad-op".toList)]
@@ -25,7 +26,7 @@ def firstSome (fs : List (String → List String → Option J)) (op : String) (a
 
 def dispatch (op : String) (args : List String) : J :=
   if op = "dump-tables" then dumpTables else
-  match firstSome [wireOp, bannerOp, versionOp, targetOp, policyOp, gexOp, reportOp, hostKeyOp, sessionOp, multiOp, outputOp, footprintOp, policyFileOp, ssh1ReportOp, lookupOp, jsonDocOp, policyAuditOp] op args with
+  match firstSome [wireOp, bannerOp, versionOp, targetOp, policyOp, gexOp, reportOp, hostKeyOp, sessionOp, multiOp, outputOp, footprintOp, policyFileOp, ssh1ReportOp, lookupOp, jsonDocOp, policyAuditOp, compatOp] op args with
   | some j => j
   | none => badOp
 
